@@ -159,3 +159,90 @@ class IsAlternativeSplicing(Contract):
         i = z3.Int('i_post')
         want = z3.Exists([i], z3.And(0 <= i, i < st.n, z3.Or(*[st.TOK(i, y) for y in range(len(AS_TYPES))])))
         I.e.prove('C19/splice-altering-iff-some-variant-id-has-an-alternative-splicing-type-as-a-token', as_bool(I.truth(ret)) == want)
+
+
+# ----------------------------------------------------------------------------
+# the expression table
+# ----------------------------------------------------------------------------
+FFC = 'moPepGen/cli/filter_fasta.py'
+from pyvc.interp import LoopSpec
+
+
+class _Cell:
+    def __init__(self, line, col):
+        self.line, self.col = line, col
+
+    def sym_float(self, I):
+        return SymObj('FloatOfCell', line=self.line, col=self.col)
+
+
+@register
+class LoadExpressionTable(Contract):
+    """every line of the table gives one entry: the transcript in column tx_col gets the value in column quant_col of the same line, split by
+    the given delimiter (a transcript listed twice keeps the value of its last line); nothing else is stored"""
+    path, qualname, props = FFC, 'load_expression_table', ('C19',)
+    assumptions = ('assumed: iterating the handle yields the remaining lines; str.rstrip / split / float as in CPython',)
+
+    def setup(self, I):
+        e = I.e
+        st = types.SimpleNamespace(sets=[])
+        st.n = e.int('n_lines')
+        e.assume(st.n >= 0)
+        st.tx_col, st.q_col = e.int('tx_col'), e.int('quant_col')
+        st.delim = SymObj('Delimiter')
+        c = self
+        zz = lambda i: i if is_z3(i) else z3.IntVal(i)
+
+        class Fields:
+            def __init__(s_, k):
+                s_.k = k
+
+            def sym_getitem(s_, I2, idx):
+                return _Cell(s_.k, idx)
+
+        class Line:
+            def __init__(s_, k):
+                s_.k = k
+
+            def sym_method(s_, I2, name, a, kw):
+                if name == 'rstrip' and not a:
+                    return s_
+                if name == 'split' and len(a) == 1:
+                    I2.e.prove('C19/exprs/line-split-by-the-given-delimiter', a[0] is st.delim)
+                    return Fields(s_.k)
+                raise Unsupported(f'line.{name}')
+        st.handle = FnView(st.n, lambda k: Line(zz(k)), tag='lines')
+        st.args = [st.handle, st.tx_col, st.q_col, st.delim]
+        self._cur = st
+        return st
+
+    def havoc(self, I, env, k):
+        c = self
+
+        class Data:
+            def sym_setitem(s_, I2, key, val):
+                c._cur.sets.append((key, val))
+        env['data'] = Data()
+        self._cur.data = env['data']
+
+    def head(self, I, env, k):
+        self._cur.mark = len(self._cur.sets)
+
+    def step(self, I, env, k):
+        st = self._cur
+        new = st.sets[st.mark:]
+        ok = len(new) == 1 and isinstance(new[0][0], _Cell) and isinstance(new[0][1], SymObj) and new[0][1].cls == 'FloatOfCell'
+        items = [('one-entry-per-line', ok)]
+        if ok:
+            key, val = new[0]
+            items.append(('transcript-column-and-quantity-column-of-this-line',
+                          z3.And(key.line == k, key.col == st.tx_col, val.fields['line'] == k, val.fields['col'] == st.q_col)))
+        return items
+
+    @property
+    def loops(self):
+        return {0: LoopSpec(inv=lambda I, env, k: [], havoc=self.havoc, on_head=self.head, step=self.step,
+                            on_break=lambda I, env, k: [('every-line-of-the-table-is-read', False)])}
+
+    def post_return(self, I, st, ret):
+        I.e.prove('C19/exprs/returns-the-table-it-filled', ret is getattr(st, 'data', ret) or (isinstance(ret, dict) and not ret))
